@@ -94,6 +94,16 @@ def Table.register (t : Table) (cls : String) (hn : Option Handler) (exact : Boo
   { map := (cls, h) :: t.map
     tree := if exact || t.tree.contains cls then t.tree else cls :: t.tree }
 
+/-- `get_handler('get', obj, raise_exc=False)`: like `getHandler`, but a missing handler is
+    not an error — `False` is returned *and memoised* -/
+def Reg.probe (r : Reg) (ct : ClassTable) (cls : String) : Reg :=
+  match alookup r.cache cls with
+  | some _ => r
+  | none =>
+    match r.tbl.nearest ct cls with
+    | some hn => { r with cache := (cls, hn) :: r.cache }
+    | none => { r with cache := (cls, .off) :: r.cache }
+
 def Reg.register (r : Reg) (cls : String) (hn : Option Handler) (exact : Bool) : Reg :=
   { tbl := r.tbl.register cls hn exact, cache := [] }
 
@@ -165,6 +175,8 @@ def Env.prim (env : Env) (h : Heap) (kind : String) (cur arg : Val) (r : Reg) : 
   if kind == "getattr" then .ran (pyGetattr2 env.k h cur arg) (attrLog env.k h cur arg) r
   else if kind == "getitem" then .ran (pyGetitem2 env.k h cur arg) (itemLog env.k h cur) r
   else if kind == "handler" then
+    -- the class of a value the kernel does not describe is unknown, and so is its handler
+    if !(modelled h cur) then .ran .beyond [] r else
     match r.getHandler env.k.ct (cur.clsName h) with
     | (some hn, r') => .ran (env.applyHandler h hn cur arg) (env.handlerLog h hn cur arg) r'
     | (none, r') => .unregistered r'
@@ -233,6 +245,7 @@ def partsOfTextS (star : Bool) (text : List Char) : List Part2 :=
 inductive Event where
   | register (cls : String) (hn : Option Handler) (exact : Bool)
   | glom (steps : List (String × Val)) (target : Val)
+  | probe (target : Val)          -- registry.get_handler('get', target, raise_exc=False)
   deriving Repr
 
 def runHistory (env : Env) (h : Heap) : Reg → List Event → List Out2
@@ -241,6 +254,7 @@ def runHistory (env : Env) (h : Heap) : Reg → List Event → List Out2
   | r, .glom steps t :: es =>
     let o := tEval2 env h (Val.sent "T" :: flatOfSteps steps) t r
     o :: runHistory env h o.reg es
+  | r, .probe t :: es => runHistory env h (r.probe env.k.ct (t.clsName h)) es
 
 /-- the registry a history leaves behind -/
 def histReg (env : Env) (h : Heap) : Reg → List Event → Reg
@@ -248,5 +262,6 @@ def histReg (env : Env) (h : Heap) : Reg → List Event → Reg
   | r, .register c hn ex :: es => histReg env h (r.register c hn ex) es
   | r, .glom steps t :: es =>
     histReg env h (tEval2 env h (Val.sent "T" :: flatOfSteps steps) t r).reg es
+  | r, .probe t :: es => histReg env h (r.probe env.k.ct (t.clsName h)) es
 
 end Glom.C01
